@@ -37,4 +37,14 @@ def run(tier, seed):
     run_contracts(pack, items('C04'))
     from contracts import fn_sequence as Q
     run_contracts(pack, [(Q.tds_fg_update('C04'),), (Q.call_models('C04'),)])
+    from contracts.packutil import native_guard
+    from contracts import bounded_tds_rule as BT
+    name = 'C04/andes/routines/tds.py:TDS.run/bounded:stored-steps-satisfy-the-trapezoid-rule,events-hit,ends-at-tf'
+    r = native_guard(pack, name, BT.run)
+    if r is not None:
+        n, bad = r
+        pack.bounded.append({'function': 'TDS.run (end to end)', 'kind': 'bounded native: %s' % ', '.join(c for c, _ in BT.CASES), 'steps': n,
+                             'counted_as_proved': False})
+        if bad:
+            pack.violation(name, {'bounded': True, 'inputs': bad, 'native_cmd': 'contracts/bounded_tds_rule.py'})
     return pack.finish()
